@@ -41,7 +41,7 @@ type vfC11Case struct {
 	Directed bool        `json:"directed,omitempty"` // store: force the window between choosing the memtable and writing to it
 }
 
-var vfC11Targets = []string{"flat", "hnsw", "ivf", "pq", "ivfpq", "bm25", "metadata", "hybrid", "store", "store", "ids", "store_flush_search"}
+var vfC11Targets = []string{"store", "store_close", "ids", "store_flush_search", "hybrid", "bm25", "store", "metadata", "flat", "hnsw", "ivf", "pq", "ivfpq"}
 
 func vfC11Gen(rt *rapid.T) vfC11Case {
 	c := vfC11Case{}
@@ -313,6 +313,9 @@ func vfC11RunCase(c vfC11Case, ctx *vfCtx) *vfViolation {
 	raceBefore, _ := vfRaceLog()
 	if c.Target == "ids" {
 		return vfC11AutoIDs(&c, ctx, raceBefore)
+	}
+	if c.Target == "store_close" {
+		return vfC11StoreClose(&c, ctx, filepath.Join(dir, "store"), raceBefore)
 	}
 	if c.Target == "store_flush_search" {
 		return vfC11FlushVsSearch(&c, ctx, filepath.Join(dir, "store"), raceBefore)
@@ -764,6 +767,199 @@ func vfC11FlushVsSearch(c *vfC11Case, ctx *vfCtx, dir string, raceBefore int64) 
 		return vfFail("the race detector reported a data race in the flush-vs-search workload:\n%s", text)
 	}
 	ctx.NonTrivial()
+	return nil
+}
+
+// vfC11StoreClose: the generated programs run against one store while another goroutine calls
+// Close half-way (and, in half of the cases, TriggerCompaction is mixed in). No data race, panic or
+// hang; Close returns nil; an operation may fail only if it overlapped Close or came after it, and
+// must fail once Close has returned; every document whose add completed before Close began (and that
+// was not removed) is found after reopening - unless a compaction ran (open finding KF-1).
+func vfC11StoreClose(c *vfC11Case, ctx *vfCtx, dir string, raceBefore int64) *vfViolation {
+	ctx.Class("target=store_close")
+	st, err := vfOpenStore(dir, &c.Conf)
+	if err != nil {
+		return vfFail("Open: %v", err)
+	}
+	G := len(c.Progs)
+	compact := c.Dim == 4
+	ctx.ClassIf(compact, "store_close_with_TriggerCompaction")
+	total := 0
+	for _, p := range c.Progs {
+		total += len(p)
+	}
+	idOf := func(g, n int) uint32 { return uint32(1<<30 + g*1000 + n) }
+	var clock, opsDone atomic.Int64
+	var closeBegan, closeEnded atomic.Int64
+	results := make([][]vfStamped, G)
+	panics := make(chan string, G+1)
+	var wg sync.WaitGroup
+	start := make(chan struct{})
+	for g := 0; g < G; g++ {
+		wg.Add(1)
+		go func(g int) {
+			defer wg.Done()
+			defer func() {
+				if r := recover(); r != nil {
+					buf := make([]byte, 4096)
+					buf = buf[:runtime.Stack(buf, false)]
+					panics <- fmt.Sprintf("goroutine %d: panic: %v\n%s", g, r, buf)
+				}
+			}()
+			<-start
+			for j, op := range c.Progs[g] {
+				s := vfStamped{g: g, op: op}
+				s.start = clock.Add(1)
+				switch op.Op {
+				case "add", "add_auto":
+					s.id = idOf(g, op.N)
+					s.err = st.AddWithID(s.id, vfCloneF32(c.Vecs[(g*7+op.N)%len(c.Vecs)]), vfDocText(s.id), map[string]interface{}{"n": int(s.id % 1000)})
+				case "remove":
+					s.id = idOf(g, op.N)
+					s.err = st.Remove(s.id)
+				case "search":
+					var res []HybridSearchResult
+					if op.Multi {
+						res, s.err = st.NewSearch().WithText("common", "auto").WithK(vfBigK).Execute()
+					} else {
+						res, s.err = st.NewSearch().WithVector(vfCloneF32(op.Q)).WithK(vfBigK).Execute()
+					}
+					for _, r := range res {
+						s.ids = append(s.ids, r.ID)
+					}
+				case "flush":
+					s.err = st.Flush()
+				case "write":
+					if compact && (g+j)%2 == 0 {
+						st.TriggerCompaction()
+					} else {
+						vfStoreEvict(st)
+					}
+				}
+				s.end = clock.Add(1)
+				opsDone.Add(1)
+				results[g] = append(results[g], s)
+			}
+		}(g)
+	}
+	var closeErr error
+	wg.Add(1)
+	go func() {
+		defer wg.Done()
+		defer func() {
+			if r := recover(); r != nil {
+				buf := make([]byte, 4096)
+				buf = buf[:runtime.Stack(buf, false)]
+				panics <- fmt.Sprintf("Close: panic: %v\n%s", r, buf)
+			}
+		}()
+		<-start
+		for opsDone.Load() < int64(total/2) {
+			runtime.Gosched()
+		}
+		closeBegan.Store(clock.Add(1))
+		closeErr = st.Close()
+		closeEnded.Store(clock.Add(1))
+	}()
+	close(start)
+	wg.Wait()
+	select {
+	case p := <-panics:
+		return vfFail("store with Close racing against %d goroutines: %s", G, p)
+	default:
+	}
+	if closeErr != nil {
+		return vfFail("store: Close racing against %d goroutines failed: %v", G, closeErr)
+	}
+	cb, ce := closeBegan.Load(), closeEnded.Load()
+	type life struct {
+		addEnd         int64
+		added, removed bool
+		maybe          bool // an add or remove overlapped Close: either outcome is acceptable
+	}
+	lives := map[uint32]*life{}
+	overlapped := 0
+	for g := 0; g < G; g++ {
+		for _, s := range results[g] {
+			beforeClose, afterClose := s.end < cb, s.start > ce
+			if !beforeClose && !afterClose {
+				overlapped++
+			}
+			if s.op.Op == "write" {
+				continue
+			}
+			if afterClose && s.err == nil {
+				return vfFail("store, goroutine %d: %s started after Close had returned and still succeeded", g, s.op.Op)
+			}
+			if beforeClose && s.err != nil && s.op.Op != "remove" {
+				return vfFail("store, goroutine %d: %s completed before Close began and failed merely because of the interleaving (%d goroutines): %v", g, s.op.Op, G, s.err)
+			}
+			switch s.op.Op {
+			case "add", "add_auto":
+				l := lives[s.id]
+				if l == nil {
+					l = &life{}
+					lives[s.id] = l
+				}
+				if s.err == nil {
+					l.added, l.addEnd = true, s.end
+					l.maybe = l.maybe || !beforeClose
+				}
+			case "remove":
+				if l := lives[s.id]; l != nil && s.err == nil {
+					l.removed = true
+				} else if l != nil && !beforeClose {
+					l.maybe = true
+				}
+			case "search":
+				for _, id := range s.ids {
+					if l := lives[id]; l == nil {
+						// the owner may not have recorded it yet; check ownership arithmetic instead
+						if id < 1<<30 || int(id-1<<30)/1000 >= G {
+							return vfFail("store: a search returned id %d, which was never added", id)
+						}
+					}
+				}
+			}
+		}
+	}
+	if vfLockExists(dir) {
+		return vfFail("store: LOCK still present after a Close that raced with %d goroutines", G)
+	}
+	st2, err := vfOpenStore(dir, &c.Conf)
+	if err != nil {
+		return vfFail("store: reopen after a Close that raced with %d goroutines failed: %v", G, err)
+	}
+	res, err := st2.NewSearch().WithVector(vfCloneF32(c.Vecs[0])).WithK(vfBigK).Execute()
+	st2.Close()
+	if err != nil {
+		return vfFail("store: search after reopen failed: %v", err)
+	}
+	got := map[uint32]bool{}
+	for _, r := range res {
+		got[r.ID] = true
+		if lives[r.ID] == nil || !lives[r.ID].added && !lives[r.ID].maybe {
+			return vfFail("store: after reopen the search returns id %d, which was never added successfully", r.ID)
+		}
+	}
+	if !compact {
+		for id, l := range lives {
+			if l.added && !l.removed && !l.maybe && !got[id] {
+				return vfFail("store: document %d was added successfully (t=%d) before Close began (t=%d) and never removed, but is gone after Close + reopen (%d goroutines)", id, l.addEnd, cb, G)
+			}
+		}
+	}
+	if raceAfter, text := vfRaceLog(); raceAfter > raceBefore {
+		lines := strings.Split(text, "\n")
+		if len(lines) > 60 {
+			lines = lines[len(lines)-60:]
+		}
+		return vfFail("the race detector reported a data race while Close raced with %d goroutines on one store:\n%s", G, strings.Join(lines, "\n"))
+	}
+	if overlapped > 0 {
+		ctx.NonTrivial()
+	}
+	ctx.Count("operations_overlapping_close", int64(overlapped))
 	return nil
 }
 
